@@ -16,7 +16,8 @@ def fillTL1 (d : Desc) : Nat → Nat → List Nat → Val → Except CErr Val
   | 0, _, _, _ => .error .fuel
   | fuel + 1, ty, params, v =>
     match d.get? ty, v with
-    | some (.struct s), .struct fs =>
+    | some (.struct s), .struct fs0 =>
+      let fs := fs0.map (·.map unhide)
       let rec go : List Field → List (Option Val) → Except CErr (List (Option Val))
         | [], [] => .ok []
         | f :: r, x :: xs =>
